@@ -540,10 +540,14 @@ def small(rng, modes):
     """a small factor for the law checks"""
     r = rng.random()
     if r < 0.5:
-        return nc.rand_word(rng, modes, maxlen=2)
-    if r < 0.85:
-        return nc.rand_sum(rng, modes, maxterms=2, maxlen=2)
-    return ["mul", nc.rand_numfun(rng, modes, depth=0), nc.rand_word(rng, modes, maxlen=1)]
+        w = nc.rand_word(rng, modes, maxlen=2)
+    elif r < 0.85:
+        w = nc.rand_sum(rng, modes, maxterms=2, maxlen=2)
+    else:
+        w = ["mul", nc.rand_numfun(rng, modes, depth=0), nc.rand_word(rng, modes, maxlen=1)]
+    if rng.random() < 0.3:  # a genuinely complex factor, so that the adjoint checks see conjugation
+        w = ["mul", ["const", str(Fr(rng.choice([1, 2, -1]), rng.choice([1, 2]))), str(Fr(rng.choice([1, -1, 2, -3]), rng.choice([1, 2])))], w]
+    return w
 
 
 def gen_fermi(rng):
@@ -651,16 +655,29 @@ def gen_generic(rng, kind):
         t = ["pow", base, rng.choice([2, 2, 3]) if light else 2]
         if rng.random() < 0.3:
             t = ["mul", t, nc.rand_word(rng, modes, maxlen=1)]
+    elif kind == "deep":  # thorough tier / search only: larger nestings (guarded by the time limit)
+        S = lambda: nc.rand_sum(rng, modes, maxterms=3, maxlen=3)  # noqa: E731
+        r = rng.random()
+        if r < 0.35:
+            t = ["mul", ["mul", S(), S()], S()]
+        elif r < 0.6:
+            t = ["mul", S(), ["mul", S(), nc.rand_word(rng, modes, maxlen=4)]]
+        elif r < 0.8:
+            t = ["mul", ["adj", ["pow", nc.rand_sum(rng, modes, maxterms=2, maxlen=2), 2]], S()]
+        else:
+            t = ["sub", ["mul", S(), ["adj", S()]], ["mul", ["adj", S()], S()]]
+        x, y, z = S(), nc.rand_word(rng, modes, maxlen=4, left=False), S()
     else:
         raise OracleInternalError(kind)
     return modes, t, x, y, z
 
 
 KINDS = ["word", "sum", "prod_of_sums", "adj", "pow", "fermi", "fermi", "fermi", "boson", "boson"]
+KINDS_THOROUGH = KINDS + ["deep", "deep"]
 
 
-def gen_case(rng, kind=None):
-    kind = kind or rng.choice(KINDS)
+def gen_case(rng, kind=None, kinds=KINDS):
+    kind = kind or rng.choice(kinds)
     if kind == "fermi":
         modes, t, x, y, z = gen_fermi(rng)
     elif kind == "boson":
@@ -677,6 +694,7 @@ def case_evaluations(case):
     xy = ["mul", x, y]
     if xy != t:
         ev.append(("tree_build", [xy]))
+    ev.append(("tree_build", [["adj", xy]]))  # the law checks alone cannot see a wrong adjoint
     ev += [("assoc", [x, y, z]), ("distrib", [x, y, z]), ("dagger_mul", [x, y]), ("round_trip", [t])]
     return ev
 
@@ -782,7 +800,8 @@ def summarize(cases, results):
 def oracle_nof(ctx, ncases=None):
     ensure_self_check()
     n = ncases or ctx.n(40, 1500)
-    cases = witness_cases() + [gen_case(ctx.rng) for _ in range(n)]
+    kinds = KINDS if ctx.quick else KINDS_THOROUGH
+    cases = witness_cases() + [gen_case(ctx.rng, kinds=kinds) for _ in range(n)]
     return summarize(cases, run_cases(cases, parallel=not ctx.quick))
 
 
@@ -793,7 +812,7 @@ def search(ctx):
     n = ctx.n(160, 3000)
     cases = witness_cases()
     for k in range(n):
-        cases.append(gen_case(ctx.rng, kind=("fermi", "boson", "fermi", "prod_of_sums")[k % 4] if k % 8 else "adj"))
+        cases.append(gen_case(ctx.rng, kind=("fermi", "boson", "fermi", "prod_of_sums")[k % 4] if k % 8 else ("adj", "deep")[(k // 8) % 2]))
     return summarize(cases, run_cases(cases, parallel=True))["failures"]
 
 
